@@ -464,7 +464,7 @@ func (w *World) CheckSweep(out *Outcome, runs []*Obs) []Violation {
 		for _, o := range runs[1:] {
 			if (outcome(o) == "ok") != first {
 				oracle := "outcome-varies-with-order"
-				if subst && w.staleVersionPattern(runs) {
+				if subst && w.staleVersionPattern(runs) && hasMultiCandidatePoint(out) {
 					oracle = "outcome-varies-under-substitution"
 				}
 				vs = append(vs, v("C10", oracle, "", fmt.Sprintf("no point of the program is tied, yet run %s ended %s (%s%s) and run %s ended %s (%s%s)",
@@ -558,4 +558,19 @@ func (w *World) staleVersionPattern(runs []*Obs) bool {
 		}
 	}
 	return failing > 0
+}
+
+// hasMultiCandidatePoint: some point of the program has two or more candidates, i.e. the
+// order in which the registry enumerates candidates can decide which member of a cycle is
+// created first (the precondition of the D9 finding). Without such a point the creation
+// order is fixed by the name-sorted refresh and the outcome must not vary at all.
+func hasMultiCandidatePoint(out *Outcome) bool {
+	for _, rs := range out.Res {
+		for _, r := range rs {
+			if len(r.Cands) >= 2 {
+				return true
+			}
+		}
+	}
+	return false
 }
